@@ -1,0 +1,238 @@
+//go:build verif
+
+package scheduler
+
+// Verification seams for deterministic simulation (build tag "verif").
+//
+// Every synchronisation point of the scheduler calls one of the functions
+// below. With no hook installed they do nothing. A simulator installs the
+// Verif* function variables to park the calling goroutine until it is
+// released, to own the choice among ready select arms of the Scheduler Loop,
+// and to observe which arm fired. None of this is compiled without the tag.
+
+import (
+	"context"
+	"reflect"
+	"time"
+)
+
+// Hook sites.
+const (
+	vsWStart = iota + 1
+	vsWDiePost
+	vsWRespawned
+	vsWGot
+	vsWRun
+	vsWPost
+	vsWNext
+	vsWExit
+	vsSpStart
+	vsSpNext
+	vsNewSpawned
+	vsNewLoop
+	vsEnqSend
+	vsLStart
+	vsLExit
+	vsLPreKill
+	vsLDrain
+	vsWaitClose
+	vsLSelect
+	vsWaitSelect
+)
+
+// Exported copies of the site numbers for the simulator.
+const (
+	VerifWStart      = vsWStart
+	VerifWDiePost    = vsWDiePost
+	VerifWRespawned  = vsWRespawned
+	VerifWGot        = vsWGot
+	VerifWRun        = vsWRun
+	VerifWPost       = vsWPost
+	VerifWNext       = vsWNext
+	VerifWExit       = vsWExit
+	VerifSpStart     = vsSpStart
+	VerifSpNext      = vsSpNext
+	VerifNewSpawned  = vsNewSpawned
+	VerifNewLoop     = vsNewLoop
+	VerifEnqSend     = vsEnqSend
+	VerifLStart      = vsLStart
+	VerifLExit       = vsLExit
+	VerifLPreKill    = vsLPreKill
+	VerifLDrain      = vsLDrain
+	VerifWaitClose   = vsWaitClose
+	VerifLSelect     = vsLSelect
+	VerifWaitSelect_ = vsWaitSelect
+)
+
+// Select arms of the Scheduler Loop (bit mask).
+const (
+	vsArmDispatch = 1
+	vsArmEnqueue  = 2
+	vsArmDone     = 4
+	vsArmTick     = 8
+
+	VerifArmDispatch = vsArmDispatch
+	VerifArmEnqueue  = vsArmEnqueue
+	VerifArmDone     = vsArmDone
+	VerifArmTick     = vsArmTick
+)
+
+// VerifSelectInfo describes the Scheduler Loop's select as it is about to
+// execute.
+type VerifSelectInfo struct {
+	HasReady bool // dispatch arm enabled (a job is offered on readyc)
+	EnqOpen  bool // enqueue arm still enabled
+	LenEnq   int
+	LenDone  int
+	CapDone  int
+	HasTick  bool
+	TickDue  bool
+
+	// Loop-local counters, for reach probes and state abstraction only.
+	Ready, Ongoing, Pending, Waiting int
+}
+
+// Hooks installed by the simulator. key identifies the scheduler (its ready
+// channel).
+var (
+	VerifYield      func(site int, key uintptr, job *ScheduledJob)
+	VerifLoopSelect func(key uintptr, peek func() VerifSelectInfo) (mask int)
+	VerifArm        func(key uintptr, arm int, job *ScheduledJob)
+	VerifWaitSelect func(key uintptr, ctxDone func() bool) (hideDone bool)
+)
+
+func verifKey(c interface{}) uintptr { return reflect.ValueOf(c).Pointer() }
+
+func verifYieldW(site int, readyc <-chan *ScheduledJob, j *ScheduledJob) {
+	if VerifYield != nil {
+		VerifYield(site, verifKey(readyc), j)
+	}
+}
+
+func verifYieldS(site int, readyc chan<- *ScheduledJob, j *ScheduledJob) {
+	if VerifYield != nil {
+		VerifYield(site, verifKey(readyc), j)
+	}
+}
+
+type verifLoop struct {
+	key      uintptr
+	freq     time.Duration
+	hasTick  bool
+	created  time.Time // creation time of the ticker
+	lastRecv time.Time // time of the last receive from the ticker
+}
+
+func verifLoopStart(s *Scheduler, freq time.Duration, hasTick bool) *verifLoop {
+	now := time.Now()
+	return &verifLoop{key: verifKey(s.readyc), freq: freq, hasTick: hasTick, created: now, lastRecv: now}
+}
+
+func (vl *verifLoop) arm(arm int, j *ScheduledJob) {
+	if arm == vsArmTick {
+		vl.lastRecv = time.Now()
+	}
+	if VerifArm != nil {
+		VerifArm(vl.key, arm, j)
+	}
+}
+
+// tickDue reports whether a receive from the ticker would succeed now: a
+// ticker holds at most one undelivered tick, so one is available iff a
+// multiple of the period has elapsed since the last receive.
+func (vl *verifLoop) tickDue() bool {
+	if !vl.hasTick || vl.freq <= 0 {
+		return false
+	}
+	return time.Since(vl.created)/vl.freq > vl.lastRecv.Sub(vl.created)/vl.freq
+}
+
+type verifSel struct {
+	active             bool
+	enq                chan *ScheduledJob
+	done               <-chan jobResult
+	tick               <-chan time.Time
+	mEnq, mDone, mTick bool
+}
+
+// sel parks the loop before its select and, if the simulator picks one of
+// several ready arms, disables the others for this iteration by setting
+// their channels to nil. restore undoes that right after the select.
+func (vl *verifLoop) sel(s *Scheduler, readyc *chan<- *ScheduledJob, enq *chan *ScheduledJob, tick *<-chan time.Time, ready, ongoing, pending, waiting int) verifSel {
+	if VerifLoopSelect == nil {
+		return verifSel{}
+	}
+	hasReady, enqc, donec, tickc := *readyc != nil, *enq, s.donec, *tick
+	mask := VerifLoopSelect(vl.key, func() VerifSelectInfo {
+		info := VerifSelectInfo{
+			HasReady: hasReady,
+			EnqOpen:  enqc != nil,
+			LenDone:  len(donec),
+			CapDone:  cap(donec),
+			HasTick:  tickc != nil,
+			Ready:    ready,
+			Ongoing:  ongoing,
+			Pending:  pending,
+			Waiting:  waiting,
+		}
+		if enqc != nil {
+			info.LenEnq = len(enqc)
+		}
+		if tickc != nil {
+			info.TickDue = vl.tickDue()
+		}
+		return info
+	})
+	v := verifSel{}
+	if mask == 0 {
+		return v
+	}
+	v.active = true
+	if mask&vsArmDispatch == 0 {
+		*readyc = nil
+	}
+	if mask&vsArmEnqueue == 0 {
+		v.enq, v.mEnq = *enq, true
+		*enq = nil
+	}
+	if mask&vsArmDone == 0 {
+		v.done, v.mDone = s.donec, true
+		s.donec = nil
+	}
+	if mask&vsArmTick == 0 {
+		v.tick, v.mTick = *tick, true
+		*tick = nil
+	}
+	return v
+}
+
+func (v verifSel) restore(s *Scheduler, enq *chan *ScheduledJob, tick *<-chan time.Time) {
+	if !v.active {
+		return
+	}
+	if v.mEnq {
+		*enq = v.enq
+	}
+	if v.mDone {
+		s.donec = v.done
+	}
+	if v.mTick {
+		*tick = v.tick
+	}
+}
+
+type verifNoDoneCtx struct{ context.Context }
+
+func (verifNoDoneCtx) Done() <-chan struct{} { return nil }
+
+// verifWaitSelect parks Wait before its select. When both arms are ready the
+// simulator may hide the context's Done channel to force the finished arm.
+func verifWaitSelect(s *Scheduler, ctx context.Context) context.Context {
+	if VerifWaitSelect == nil {
+		return ctx
+	}
+	if VerifWaitSelect(verifKey(s.readyc), func() bool { return ctx.Err() != nil }) {
+		return verifNoDoneCtx{ctx}
+	}
+	return ctx
+}
